@@ -800,10 +800,11 @@ class Interp:
                 is_int = isinstance(dt, Builtin) and dt.tail in ("int", "int64", "int32", "intp", "uint32", "uint64")
                 if like and dt is None and pos[0].items and all(isinstance(x, int) and not isinstance(x, bool) for x in pos[0].items):
                     is_int = True       # the dtype of the model array is kept
+                is_bool = isinstance(dt, Builtin) and dt.tail in ("bool", "bool_")
                 if t.startswith("zeros"):
-                    fill = 0 if is_int else Fraction(0)
+                    fill = False if is_bool else (0 if is_int else Fraction(0))
                 elif t.startswith("ones"):
-                    fill = 1 if is_int else Fraction(1)
+                    fill = True if is_bool else (1 if is_int else Fraction(1))
                 elif t in ("full", "full_like") and n > 1:
                     fill = pos[1]
                 elif t in ("full", "full_like") and "fill_value" in kw:
@@ -833,7 +834,7 @@ class Interp:
             return self._itertools(t, pos, kw, node, env)
         if t in ("repeat", "tile", "outer", "meshgrid", "roll", "cumsum", "reshape", "ravel", "mod", "remainder", "add", "subtract", "multiply",
                  "floor_divide", "flip", "append", "divmod", "indices", "take", "swapaxes", "moveaxis", "squeeze", "expand_dims", "atleast_2d",
-                 "minimum", "maximum", "clip", "negative") and not f.name.startswith("itertools"):
+                 "minimum", "maximum", "clip", "negative", "tri", "nonzero", "flatnonzero", "where", "argwhere") and not f.name.startswith("itertools"):
             r = self._numpy_fn(t, pos, kw, node)
             if r is not NotImplemented:
                 return r
@@ -933,7 +934,12 @@ class Interp:
             a0.mark_all()
             return NArr(list(a0.items) * pos[1], label="tile")
         if t == "outer" and n == 2 and a0 is not None:
-            b0 = self._as_arr(pos[1])
+            b0 = NArr(list(pos[1].comps)) if isinstance(pos[1], VecV) else self._as_arr(pos[1])
+            if b0 is None and is_opaque(pos[1]) and a0.ndim == 1:
+                # one row per entry of the first argument; the rows (multiples of an opaque vector) are opaque themselves
+                out = NArr([Opaque("outer", deps_of(x)) for x in a0.items], label="outer")
+                out.ragged = True
+                return out
             if b0 is not None:
                 a1, b1 = self._reshape(a0, (-1, 1), node), self._reshape(b0, (1, -1), node)
                 return self.binop(ast.Mult(), a1, b1, node)
@@ -951,6 +957,30 @@ class Interp:
                     items = [a.items[idx[axis]] for idx in itertools.product(*[range(d) for d in shape])]
                     outs.append(NArr(items, shape, label="meshgrid"))
                 return outs
+        if t == "tri" and 1 <= n <= 3 and all(isinstance(x, int) and not isinstance(x, bool) for x in pos) and set(kw) <= {"M", "k", "dtype"}:
+            # np.tri(N, M, k): ones at and below the k-th diagonal
+            rows_, cols_ = pos[0], (pos[1] if n > 1 else kw.get("M", pos[0]))
+            cols_ = rows_ if cols_ is None else cols_
+            k_ = pos[2] if n > 2 else kw.get("k", 0)
+            dt = kw.get("dtype")
+            as_bool = isinstance(dt, Builtin) and dt.tail in ("bool", "bool_")
+            if isinstance(cols_, int) and isinstance(k_, int) and rows_ >= 0 and cols_ >= 0:
+                one, zero = (True, False) if as_bool else ((1, 0) if isinstance(dt, Builtin) and dt.tail.startswith(("int", "uint")) else (Fraction(1), Fraction(0)))
+                return NArr([one if j <= i + k_ else zero for i in range(rows_) for j in range(cols_)], (rows_, cols_), label="tri")
+            return Opaque(t)
+        if t in ("nonzero", "flatnonzero", "argwhere") or (t == "where" and n == 1):
+            if a0 is None or kw or n != 1 or not all(isinstance(x, bool) or _num(x) for x in a0.items):
+                return Opaque(t)
+            a0.mark_all()
+            hits = [idx for idx, x in zip(itertools.product(*[range(d) for d in a0.shape]), a0.items) if x]
+            if t == "flatnonzero":
+                st_ = a0.strides()
+                return NArr([sum(i * s_ for i, s_ in zip(idx, st_)) for idx in hits], label=t)
+            if t == "argwhere":
+                return NArr([i for idx in hits for i in idx], (len(hits), a0.ndim), label=t)
+            return tuple(NArr([idx[ax] for idx in hits], label=t) for ax in range(a0.ndim))      # one index array per axis, row-major order
+        if t == "where":
+            return Opaque(t)
         if t == "take" and n >= 2 and a0 is not None:
             # np.take(a, idx, axis=k)  ==  a[:, ..., idx]  (flattened array when no axis is given)
             axis = kw.get("axis", pos[2] if n > 2 else None)
@@ -1033,6 +1063,8 @@ class Interp:
         return NotImplemented
 
     def _reshape(self, a, shp, node):
+        if getattr(a, "ragged", False):
+            return Opaque("reshape")
         r = ND.reshape(a, tuple(shp))
         if isinstance(r, str):
             raise Crash("ValueError", r, node)
@@ -1885,6 +1917,20 @@ class Interp:
         return Opaque("boolop") if unknown else last
 
     def e_Compare(self, e, env):
+        if len(e.ops) == 1 and isinstance(e.ops[0], (ast.Lt, ast.LtE, ast.Gt, ast.GtE, ast.Eq, ast.NotEq)):
+            a, b = self.ev(e.left, env), self.ev(e.comparators[0], env)
+            if isinstance(a, NArr) or isinstance(b, NArr):
+                # numpy compares entry by entry
+                if not ((isinstance(a, NArr) or _num(a)) and (isinstance(b, NArr) or _num(b))):
+                    return Opaque("compare")
+
+                def cmp(x, y):
+                    r = self.compare(e.ops[0], x, y, e) if (_num(x) or isinstance(x, bool)) and (_num(y) or isinstance(y, bool)) else None
+                    return r if r is not None else Opaque("compare", deps_of(x) | deps_of(y))
+                out = ND.elementwise(a, b, cmp)
+                return out if out is not None else Opaque("compare")
+            r = self.compare(e.ops[0], a, b, e)     # operands already evaluated (once)
+            return Opaque("compare") if r is None else r
         left = self.ev(e.left, env)
         res = True
         unknown = False
@@ -2007,6 +2053,15 @@ class Interp:
                 return VecV([Fraction(c) / Fraction(b) for c in a.comps])
             return Opaque("vec")
         # arrays: element-wise, the leading dimension is kept
+        if getattr(a, "ragged", False) or getattr(b, "ragged", False):
+            # an array known by its rows only (rows are opaque vectors): arithmetic keeps the number of rows
+            r_, o_ = (a, b) if getattr(a, "ragged", False) else (b, a)
+            n_ = len(r_.items)
+            if (isinstance(o_, NArr) and o_.ndim >= 1 and o_.shape[0] in (n_, 1)) or is_opaque(o_) or _num(o_) or isinstance(o_, (VecV, Lin)):
+                out = NArr([Opaque("row") for _ in range(n_)], label=r_.label)
+                out.ragged = True
+                return out
+            return Opaque("rows")
         if isinstance(a, NArr) or isinstance(b, NArr):
             other = b if isinstance(a, NArr) else a
             if isinstance(other, (Mesh, Container, Attr)):
